@@ -26,6 +26,7 @@ ActivePeers::add(own id, the connection handed in) and add_peer never closes a c
 ActivePeersInner::add leaves an entry for that peer (C04.2a re-evaluated); the returned id is the key of the first
 (end-entity) certificate of that very connection (C01.7 re-evaluated).
 The connect API always carries the dial out: every return of NetworkInner::connect passes the ConnectRequest(addr, expected id) it sent and a success is the manager's reply (C03.10).
+The pinned verifier keeps demanding the proof of possession: its handshake-signature checks are rustls' own (C01.2/C01.3 re-evaluated).
 """
 TRUSTED = ["rustls calls the configured ServerCertVerifier for every handshake", "C01's chain (identity = verified key)"]
 NOT_DECIDED = ["datagram loss during the handshake", "timing of concurrent dials", "the impostor's cryptographic inability (trusted base of C01)"]
@@ -307,30 +308,7 @@ def run(cx):
                    "dial_peer/forwarded", "dial_peer does not forward (address, peer_id, oneshot) to dial_peer_task", db.path)
 
     with cx.ob("C03.7", "R-FLOW", "every dial that knows the identity it expects is pinned: background dials pass Some(known peer's id), explicit dials forward the caller's Option") as ob:
-        sites = prog.callers_of(f"{MGR}::dial_peer")
-        ob.floor(sites, 2, "dial_peer call sites (explicit + background)", exact=True)
-        for c in sites:
-            o = Origins(c.body)
-            own = owner_path(prog, c.body)
-            t = strip_identity(o.of_operand(c.args[2]))
-            if own == f"{MGR}::start":
-                okf = t[0] == "field" and t[2] == "1" and any(x[0] == "variant" and x[2] == "ConnectRequest" for x in walk(t))
-                ob.require(okf, "pin/explicit-forwards", f"explicit dial passes {show(t)[:60]} as expected identity", c.body.path, c.body.loc(c.bb))
-            elif own == f"{MGR}::handle_connectivity_check":
-                ok = t[0] == "agg" and t[2].endswith("Option::Some") and mentions_field(t[3][0], "peer_id") and term_has_call(t[3][0], "Iterator::next")
-                ob.require(ok, "pin/background-pinned", f"background dial passes {show(t)[:80]} as expected identity (must be Some(known peer id))", c.body.path, c.body.loc(c.bb))
-            else:
-                ob.fail("refuted", f"pin/unknown-dial-site/{own}", f"dial_peer called from {c.body.path}", c.body.path, c.body.loc(c.bb))
-        # the address dialed belongs to that same known-peer entry
-        hc = cx.body(f"{MGR}::handle_connectivity_check")
-        ho = Origins(hc)
-        dp = hc.calls_to(f"{MGR}::dial_peer")
-        if dp:
-            addr = ho.of_operand(dp[0].args[1])
-            pid = ho.of_operand(dp[0].args[2])
-            a_it = [x[3] for x in walk(addr) if x[0] == "call" and name_matches(x[1], "Iterator::next")]
-            p_it = [x[3] for x in walk(pid) if x[0] == "call" and name_matches(x[1], "Iterator::next")]
-            ob.require(bool(a_it) and set(a_it) == set(p_it) and mentions_field(addr, "address"), "pin/address-of-same-peer", "dialed address and pinned id do not come from the same known-peer entry", hc.path)
+        check_dials_pinned(ob, cx)
 
     with cx.ob("C03.8", "R-FLOW", "the identity a dial returns is the key the handshake authenticated: Connection.peer_id = id of the first (end-entity) certificate of the same connection (C01.7 re-evaluated)") as ob:
         from . import c01
@@ -342,6 +320,14 @@ def run(cx):
         ob.require(len(w) == 1 and not bad, "returned-identity/authenticated-certificate",
                    "the PeerId of a connection is not derived from the certificate the pin / signature check authenticated: " + "; ".join(v.msg for v in bad)[:300],
                    "anemo::connection::Connection::new")
+        # ... and the pinned verifier still demands the proof of possession: its handshake-signature checks are rustls' own
+        # (C01.2 / C01.3 re-evaluated for ExpectedCertVerifier) - comparing the presented key with the pin is not enough, a
+        # certificate can be replayed
+        w2 = [x for x in sub.obs if x.oid in ("C01.2", "C01.3")]
+        ob.count(sum(x.evals for x in w2))
+        bad2 = [v for x in w2 for v in x.violations if x.oid == "C01.3" or "ExpectedCertVerifier" in v.key]
+        ob.require(len(w2) == 2 and not bad2, "pinned-verifier/proof-of-possession",
+                   "a pinned dial accepts a handshake signature it did not verify: " + "; ".join(v.msg for v in bad2)[:300], "anemo::crypto::ExpectedCertVerifier")
 
     with cx.ob("C03.9", "R-PATHSEQ", "a dial answered Ok is in the connected set: every returning path of ActivePeersInner::add leaves an entry for the new connection's peer (inserted, replaced, or the kept winner) - C04.2a re-evaluated") as ob:
         from . import c04
@@ -398,3 +384,31 @@ def check_connect_always_dials(ob, cx):
             okp = (a2[0] == "agg" and str(a2[2]).endswith("Option::Some") and is_param_or_upvar(a2[3][0], "peer_id")) if pin else (a2[0] == "agg" and str(a2[2]).endswith("Option::None"))
             ob.require(okp, f"{fn_}/expected-id", f"Network::{fn_} passes {show(a2)[:60]} as the expected identity", cb_.path)
 
+
+def check_dials_pinned(ob, cx):
+    """Body of C03.7 (also re-evaluated by C01.11 without running all of C03)."""
+    prog = cx.prog
+    sites = prog.callers_of(f"{MGR}::dial_peer")
+    ob.floor(sites, 2, "dial_peer call sites (explicit + background)", exact=True)
+    for c in sites:
+        o = Origins(c.body)
+        own = owner_path(prog, c.body)
+        t = strip_identity(o.of_operand(c.args[2]))
+        if own == f"{MGR}::start":
+            okf = t[0] == "field" and t[2] == "1" and any(x[0] == "variant" and x[2] == "ConnectRequest" for x in walk(t))
+            ob.require(okf, "pin/explicit-forwards", f"explicit dial passes {show(t)[:60]} as expected identity", c.body.path, c.body.loc(c.bb))
+        elif own == f"{MGR}::handle_connectivity_check":
+            ok = t[0] == "agg" and t[2].endswith("Option::Some") and mentions_field(t[3][0], "peer_id") and term_has_call(t[3][0], "Iterator::next")
+            ob.require(ok, "pin/background-pinned", f"background dial passes {show(t)[:80]} as expected identity (must be Some(known peer id))", c.body.path, c.body.loc(c.bb))
+        else:
+            ob.fail("refuted", f"pin/unknown-dial-site/{own}", f"dial_peer called from {c.body.path}", c.body.path, c.body.loc(c.bb))
+    # the address dialed belongs to that same known-peer entry
+    hc = cx.body(f"{MGR}::handle_connectivity_check")
+    ho = Origins(hc)
+    dp = hc.calls_to(f"{MGR}::dial_peer")
+    if dp:
+        addr = ho.of_operand(dp[0].args[1])
+        pid = ho.of_operand(dp[0].args[2])
+        a_it = [x[3] for x in walk(addr) if x[0] == "call" and name_matches(x[1], "Iterator::next")]
+        p_it = [x[3] for x in walk(pid) if x[0] == "call" and name_matches(x[1], "Iterator::next")]
+        ob.require(bool(a_it) and set(a_it) == set(p_it) and mentions_field(addr, "address"), "pin/address-of-same-peer", "dialed address and pinned id do not come from the same known-peer entry", hc.path)
